@@ -2,6 +2,7 @@ import Driver.Util
 import Driver.PathFn
 import Rivia.Model.MemfsOps
 import Rivia.Spec.MemfsJudge
+import Rivia.Spec.Walk
 
 namespace Driver
 open Rivia Rivia.Memfs
@@ -172,6 +173,24 @@ def showR (op : Op) : R Val → String
 open Rivia.Spec in
 /-- spec column, class column, invariant column for one step from pre-state `s` -/
 def judgeCols (env : Env) (s s' : State) (op : Op) : String :=
+  let travSpec : Option (String × String) := match op with
+    | .entries p r =>
+      if r.follow then none else
+      match absM env p s with
+      | (.ok k, _) => (match entriesOf s k with
+        | .ok (rootE, snap) =>
+          let es := Spec.entriesSpec snap r.opts rootE
+          let cls := if r.contentsFirst && r.kind != 'a' then "contents_first_ignores_filter"
+                     else if r.contentsFirst && r.min > 0 then "contents_first_min_depth_order" else "-"
+          some ("ok " ++ showVal op (.trav (es.map (·.path)) none) ++ " ## " ++ absDump (absS s), cls)
+        | _ => none)
+      | _ => none
+    | _ => none
+  match travSpec with
+  | some (sp, cls) =>
+    let inv := match invViolation s' with | none => "inv-ok" | some c => "inv-broken:" ++ c
+    sp ++ "\t" ++ cls ++ "\t" ++ inv
+  | none =>
   let spec := match specStep env (absS s) op with
     | some (r, t') => (match r with | .unspecified => "-" | _ => showR op r ++ " ## " ++ absDump t')
     | none => "-"
